@@ -13,12 +13,33 @@ def bump(m, rel=50):
     return m + max(64, abs(m) // rel)
 
 
+_FAM = {"fam": None}
+
+
+def cfg_fam(rec):
+    return _FAM["fam"]
+
+
 def corrupt(rec, mode):
     r = copy.deepcopy(rec)
     e = r["e"]
     exact = lambda m: m + 1
-    if mode == "E":
-        f = exact if rec.get("k", 0) in (0, 2) else bump
+    if mode == "P":
+        if e == "Call":
+            # (calls that are known not to check, C09-nocheck / C09-uninitsetup, are left alone)
+            if (_FAM.get("prior"), r["fn"]) in (("rdp", "htimes"), ("logcosh", "value"), ("logcosh", "gradient"), ("logcosh", "htimes")) or _FAM.get("ctor") == "args": return None
+            r["err"] = not r["err"]
+        elif e == "Fresh": r["vb"] += 1
+        elif e == "RoundTrip": r["g2"][-1] += 1
+        elif e == "SetUp": r["err"] = True
+        else: return None
+    elif mode == "R":
+        if e == "FRGrad":
+            j = max(range(len(r["g"])), key=lambda i: abs(r["g"][i]))
+            r["g"][j] = bump(r["g"][j], 100)
+        else: return None
+    elif mode == "E":
+        f = exact if rec.get("k", 0) in (0, 2) or cfg_fam(rec) in (2, 3) else bump
         if e == "Val": r["m"] = f(r["m"])
         elif e == "Grad": r["g"][-1] = f(r["g"][-1])
         elif e == "HRow":
@@ -52,6 +73,7 @@ def corrupt(rec, mode):
             r["hv"] = [-h for h in r["hv"]]
             if sum(abs(a) + abs(b) for a, b in zip(r["v"], r["hv"])) // 2 + len(r["v"]) >= s: return None
         elif e == "Lin": r["hv"][0] += 1000 + abs(r["hv"][0]) // 100
+        elif e == "PLS2D": r["m"] += 1
         elif e == "FDV":
             if r["g0"] == 0 and r["g1"] == 0: return None
             r["g0"], r["g1"] = 2 * r["g0"], 2 * r["g1"]   # a gradient twice too large
@@ -71,16 +93,19 @@ def main():
     cases, seen = [], {}
     for t in traces:
         cfg = img = None
+        hist = []
         for rec in lib.read_ndjson(t):
-            if rec["e"] == "Config": cfg, img = rec, None; continue
+            if rec["e"] in ("Config", "New"): cfg, img, hist = rec, None, []; _FAM.update(fam=rec.get("fam"), prior=rec.get("prior"), ctor=rec.get("ctor")); continue
             if rec["e"] == "Image": img = rec; continue
             if cfg is None: continue
-            key = (cfg["prior"], cfg["mode"], rec["e"])
+            prefix = [cfg] + ([img] if img else []) + (hist if cfg["mode"] == "P" else [])   # histories: the whole prefix
+            if cfg["mode"] == "P": hist = hist + [rec]
+            key = (cfg["prior"], cfg["mode"], rec["e"]) + ((cfg.get("fam"),) if cfg["mode"] == "E" else ())
             if seen.get(key, 0) >= cap: continue
             c = corrupt(rec, cfg["mode"])
             if c is None: continue
             seen[key] = seen.get(key, 0) + 1
-            cases.append((key, [cfg] + ([img] if img else []) + [rec], [cfg] + ([img] if img else []) + [c]))
+            cases.append((key, prefix + [rec], prefix + [c]))
     # one file with all good mini-traces, one with all corrupted ones: TLC must explain every line of the
     # first and must leave exactly the corrupted lines of the second unexplained
     good, badf, expect = [], [], []
@@ -95,7 +120,7 @@ def main():
     ok2, r2, at2 = lib.validate_trace("Trace_Priors", pb, timeout=900)
     ub = {ln for ln, cls in lib.unexplained(r2)}
     missed = [cases[i][0] for i, ln in enumerate(expect) if ln not in ub]
-    print("%d corruption cases (%s)" % (len(cases), ", ".join(sorted({"%s/%s/%s" % k for k, _, _ in cases}))))
+    print("%d corruption cases (%s)" % (len(cases), ", ".join(sorted({"/".join(str(q) for q in k) for k, _, _ in cases}))))
     print("uncorrupted mini-traces: %d unexplained lines (must be 0, known-finding classes excluded): %s" % (len([u for u in ug if u[1] == "new"]), ug[:5]))
     print("corrupted: %d of %d rejected; missed: %s" % (len(cases) - len(missed), len(cases), missed))
     return 0 if not missed and not [u for u in ug if u[1] == "new"] else 1
